@@ -38,6 +38,10 @@ def directed(rnd, quick):
             # a sibling stream that is never read must not block or corrupt this one
             cases.append({"window": w, "conn_window": 4 << 20, "streams": [stream([w * 3 + 10], policy="never"), stream(b, policy="auto"), stream(b, sized=True, policy="step", release_step=max(1, w // 3))]})
             cases.append({"window": w, "conn_window": 4 << 20, "streams": [stream([w * 3 + 10], policy="reset"), stream(b, policy="auto")]})
+    # a long always-ready body on a stream the client resets (or never reads) next to a normal one
+    for w in (100, 16384, 65535):
+        for pol in ("reset", "never"):
+            cases.append({"window": w, "conn_window": 4 << 20, "streams": [stream([1024] * 2000, policy=pol), stream([5000, 5000], policy="auto")]})
     # head rules: HEAD, bodiless statuses, declared lengths, hop-by-hop headers, handler-set content-length
     for m, st in (("HEAD", 200), ("GET", 204), ("GET", 304), ("GET", 200)):
         for b in ([300], [0, 300, 0], []):
